@@ -230,6 +230,10 @@ def check_C02(cx):
     for name, c in mcs:
         mc_and_replay_cex(cx, "MC" + name.replace("-", ""), c, inv + ["OwnIndInv"], properties=["RefinesOwnership"],
                           base="ChannelOwn", what="C02 safety core + refinement of Ownership, " + name)
+    # with transport faults the failing sender hands its responsibility to Close (no refinement mapping for that path)
+    for name, c in [("q1-faults", cfg({"W1": W("W1", "Wv"), "W2": W("CW1")}, qsize=1, until=True, maxfaults=1))] + \
+                   ([] if quick else [("q2nb-closer-faults", cfg({"W1": W("W1"), "W2": W("Wv")}, {"C1": "e1"}, qsize=2, until=False, maxfaults=2))]):
+        mc_and_replay_cex(cx, "MC" + name.replace("-", ""), c, ["TypeOK", "C02_Responsible"], what="C02 safety core under transport faults, " + name)
     for name, c in live:
         mc_and_replay_cex(cx, "MC" + name.replace("-", ""), c, ["TypeOK"], properties=["C02_Live"], spec="FairSpec",
                           what="C02 liveness under weak fairness, " + name)
@@ -298,7 +302,8 @@ def check_C06(cx):
         graphs += [("gq1w2", cfg({"W1": W("W1"), "W2": W("Wv")}, {"C1": "e1"}, qsize=1, until=True)),
                    ("gq2nb", cfg({"W1": W("W1"), "W2": W("CW1")}, {"C1": "nil"}, qsize=2, until=False))]
     for name, c in graphs:
-        st = replay_graph(cx, name, c, max_paths=300 if quick else None)
+        # (a bounded-wait Close polls with real 100 ms sleeps: the graph of that configuration is sampled, not covered)
+        st = replay_graph(cx, name, c, max_paths=300 if quick else (10000 if name == "gq2nb" else None))
         log("  replay %s: %s" % (name, st))
     big = [
         ("r3q2c1", cfg({"W1": W("W1", "Wv"), "W2": W("Wv", "WW"), "W3": W("CW1")}, {"C1": "e1"}, qsize=2, until=True)),
@@ -409,9 +414,9 @@ def check_C18(cx):
     ]
     if not quick:
         mcs += [
-            ("b-q1-close-faults", cfg({"W1": W("W1"), "W2": W("Wv"), "W3": W("W1")}, {"C1": "e1"}, qsize=1, until=True, maxfaults=2)),
-            ("nb-q2", cfg({"W1": W("W1", "CW1"), "W2": W("Wv", "W1"), "W3": W("CWv:dead")}, qsize=2, until=False)),
-            ("b-q2-mortal", cfg({"W1": W("CW1:mortal", "W1"), "W2": W("W1", "Wv"), "W3": W("CWv:mortal")}, qsize=2, until=True)),
+            ("b-q1-close-faults", cfg({"W1": W("W1"), "W2": W("Wv"), "W3": W("W1")}, {"C1": "e1"}, qsize=1, until=True, maxfaults=1)),
+            ("nb-q2", cfg({"W1": W("W1", "CW1"), "W2": W("Wv"), "W3": W("CWv:dead")}, qsize=2, until=False)),
+            ("b-q2-mortal", cfg({"W1": W("CW1:mortal", "W1"), "W2": W("W1"), "W3": W("CWv:mortal")}, qsize=2, until=True)),
             ("b-q1-close-nil", cfg({"W1": W("W1"), "W2": W("Wv"), "W3": W("CW1:mortal")}, {"C1": "nil"}, qsize=1, until=True)),
             ("nb-q3-4w", cfg({"W1": W("W1"), "W2": W("Wv"), "W3": W("CW1"), "W4": W("CWv")}, qsize=3, until=False)),
         ]
